@@ -184,22 +184,64 @@ Definition code_at (cf : cfg) (alphabet : list Z) (len : nat) (n : Z) : Z :=
   outcome_code alphabet len
     (ignore_comments_cfg cf (map (nth_char alphabet) (digits (Z.of_nat (length alphabet)) len n))).
 
-(** The implementation's codes arrive packed, [per] codes of [bits] bits in one
-    number (little endian), to keep the generated file small.  Returns the
-    string numbers [n >= lo] on which the model's code differs. *)
-Fixpoint sweep_packed (cf : cfg) (alphabet : list Z) (len : nat) (bits : Z) (k : nat) (n : Z) (w : Z) : list Z :=
-  match k with
-  | O => []
-  | S k' =>
-    let e := Z.land w (2 ^ bits - 1) in
-    let rest := sweep_packed cf alphabet len bits k' (n + 1) (Z.shiftr w bits) in
-    if code_at cf alphabet len n =? e then rest else n :: rest
+(** Reading many expected values into Coq is slow, so the comparison is done
+    on fingerprints: both sides evaluate every case, and compare, per block of
+    cases, the polynomial fingerprints sum (code_i + 1) r^(k-i) modulo two
+    Mersenne primes for bases [r1], [r2] drawn at random by the harness.  A
+    block whose fingerprints differ is then listed exactly ([sweep_codes],
+    [rand_outcomes]). *)
+Definition fp_p1 : Z := 2305843009213693951.               (* 2^61 - 1 *)
+Definition fp_p2 : Z := 618970019642690137449562111.       (* 2^89 - 1 *)
+Definition fp_step (r1 r2 : Z) (acc : Z * Z) (code : Z) : Z * Z :=
+  ((fst acc * r1 + code + 1) mod fp_p1, (snd acc * r2 + code + 1) mod fp_p2).
+
+Fixpoint sweep_fp (cf : cfg) (alphabet : list Z) (len : nat) (r1 r2 : Z) (count : nat) (n : Z)
+         (acc : Z * Z) : Z * Z :=
+  match count with
+  | O => acc
+  | S k => sweep_fp cf alphabet len r1 r2 k (n + 1) (fp_step r1 r2 acc (code_at cf alphabet len n))
   end.
-Fixpoint sweep_mismatches (cf : cfg) (alphabet : list Z) (len : nat) (bits : Z) (per : nat) (n : Z)
-         (expected : list Z) : list Z :=
-  match expected with
-  | [] => []
-  | w :: r =>
-    sweep_packed cf alphabet len bits per n w ++
-    sweep_mismatches cf alphabet len bits per (n + Z.of_nat per) r
+(** [blocks]: (first string number, count). *)
+Definition sweep_fps (cf : cfg) (alphabet : list Z) (len : nat) (r1 r2 : Z) (blocks : list (Z * Z))
+  : list (Z * Z) :=
+  map (fun b => sweep_fp cf alphabet len r1 r2 (Z.to_nat (snd b)) (fst b) (0, 0)) blocks.
+Fixpoint sweep_codes (cf : cfg) (alphabet : list Z) (len : nat) (count : nat) (n : Z) : list Z :=
+  match count with
+  | O => []
+  | S k => code_at cf alphabet len n :: sweep_codes cf alphabet len k (n + 1)
+  end.
+
+(** Pseudo-random long strings are generated on both sides from a seed by the
+    same linear congruential generator. *)
+Definition lcg (x : Z) : Z := (x * 1103515245 + 12345) mod 2147483648.
+Fixpoint rand_string (alphabet : list Z) (len : nat) (x : Z) : list Z :=
+  match len with
+  | O => []
+  | S l => let x' := lcg x in
+           nth_char alphabet ((x' / 65536) mod Z.of_nat (length alphabet)) :: rand_string alphabet l x'
+  end.
+Definition rand_len (x : Z) : Z :=
+  let u := (x / 65536) mod 100 in
+  let v := x / 7 in
+  if u <? 50 then 8 + v mod 9 else if u <? 85 then 17 + v mod 24 else 41 + v mod 80.
+(** Case number i of a run: x_i = lcg x_(i-1), length [rand_len x_i], string
+    [rand_string alphabet len x_i]. *)
+Definition rand_case (cf : cfg) (alphabet : list Z) (x : Z) : nat * outcome :=
+  let len := Z.to_nat (rand_len x) in
+  (len, ignore_comments_cfg cf (rand_string alphabet len x)).
+Fixpoint rand_fp (cf : cfg) (alphabet : list Z) (r1 r2 : Z) (count : nat) (x : Z) (acc : Z * Z) : Z * Z :=
+  match count with
+  | O => acc
+  | S k =>
+    let x' := lcg x in
+    let '(len, o) := rand_case cf alphabet x' in
+    rand_fp cf alphabet r1 r2 k x' (fp_step r1 r2 acc (outcome_code alphabet len o))
+  end.
+(** [blocks]: (generator state before the block, count). *)
+Definition rand_fps (cf : cfg) (alphabet : list Z) (r1 r2 : Z) (blocks : list (Z * Z)) : list (Z * Z) :=
+  map (fun b => rand_fp cf alphabet r1 r2 (Z.to_nat (snd b)) (fst b) (0, 0)) blocks.
+Fixpoint rand_outcomes (cf : cfg) (alphabet : list Z) (count : nat) (x : Z) : list outcome :=
+  match count with
+  | O => []
+  | S k => let x' := lcg x in snd (rand_case cf alphabet x') :: rand_outcomes cf alphabet k x'
   end.
